@@ -39,6 +39,9 @@ def _find_signatures(
             generator = generator_for_signature_type_f(signature_type)
             seen += 1
             for idx, sec_key in enumerate(sec_keys):
+                if isinstance(sec_key, Atom):
+                    # a key that is not known yet can't have signed
+                    continue
                 public_pair = sec_to_public_pair(sec_key, generator)
                 sign_value = signature_for_hash_type_f(signature_type)
                 v = generator.verify(public_pair, sign_value, sig_pair)
@@ -111,15 +114,17 @@ def signing_solver(m: dict[str, Any]) -> tuple[Any, list[Any], list[Any]]:
         generator_for_signature_type_f = kwargs["generator_for_signature_type_f"]
         signature_for_hash_type_f = m["signature_for_hash_type_f"]
         existing_script = kwargs.get("existing_script", b"")
+        # public keys that are themselves solved values (P2PKH: found through the hash lookup) are
+        # substituted before existing signatures are matched against them
+        sec_keys = [solved_values.get(sec_key, sec_key) for sec_key in m["sec_list"]]
         existing_signatures, secs_solved = _find_signatures(
             existing_script,
             generator_for_signature_type_f,
             signature_for_hash_type_f,
             len(m["sig_list"]),
-            m["sec_list"],
+            sec_keys,
         )
 
-        sec_keys = m["sec_list"]
         signature_variables = m["sig_list"]
 
         signature_placeholder = kwargs.get(
